@@ -243,7 +243,9 @@ def gen_specs(rng: random.Random, n, hints=None):
               "backing": rng.choice([None, None, size, max(1, size // 2), size + 4096]), "datafile": version == 3 and rng.random() < 0.2,
               "data_gap": rng.choice([0, 0, 1]), "cmisalign": rng.choice([0, 0, 17, 300]), "l2_reverse": rng.random() < 0.3}
         nl1 = (ncl + per_l2 - 1) // per_l2
-        sp["l1_size"] = nl1 if rng.random() < 0.8 else max(0, nl1 - 1)
+        sp["l1_size"] = nl1 + rng.choice([0, 0, 1])
+        if nl1 > 1 and rng.random() < 0.3:
+            sp["l1_holes"] = [rng.randrange(nl1)]
         if sp["datafile"]:
             sp["clusters"] = [c if not (isinstance(c, list) and c[0] == "c") else None for c in sp["clusters"]]
         if rng.random() < 0.15:
